@@ -871,6 +871,9 @@ func scGrowSingle(r *rng) *cluster {
 // ---------------------------------------------------------------- C09: VerifyLeader
 func scVerify(r *rng) *cluster {
 	nv := 3 + 2*r.intn(2)
+	if r.chance(1, 3) {
+		nv = 5 // with three voters one reachable follower is already a majority
+	}
 	nnv := 1 + r.intn(2)
 	c := basicCluster(clusterOpts{voters: nv, nonvoters: nnv, trailing: 100, maxAppend: 4})
 	if !c.elect(pick(r, c.ids[:nv]), time.Second) {
@@ -893,6 +896,13 @@ func scVerify(r *rng) *cluster {
 		others[i], others[j] = others[j], others[i]
 	}
 	k := 1 + r.intn(len(others))
+	if r.chance(1, 2) {
+		// the leader keeps fewer than a quorum of voters (itself included): the call must not succeed
+		k = nv/2 + 1 + r.intn(len(others)-nv/2)
+		if k > len(others) {
+			k = len(others)
+		}
+	}
 	mode := r.intn(3)
 	for _, id := range others[:k] {
 		switch mode {
@@ -908,7 +918,22 @@ func scVerify(r *rng) *cluster {
 		// the others elect a new leader before the call
 		c.electAmong(r, others, others[0])
 	}
+	strict := mode == 0 && r.chance(1, 2)
+	if strict {
+		// links simply down: wait until nothing is in flight any more, then every acknowledgement the call
+		// counts must belong to an exchange of its own
+		c.settle(300 * time.Millisecond)
+		c.h.add(hev{kind: "note", s: "quiet-before-verify"})
+	}
 	cc := c.call(l.id, "verify", 0, 0)
+	if strict || r.chance(1, 2) {
+		// writes while the call is pending: the reachable followers answer several exchanges, each of them
+		// may be counted once only
+		for i := 0; i < 4; i++ {
+			c.call(l.id, "apply", uint64(9300+i), 0)
+			time.Sleep(3 * time.Millisecond)
+		}
+	}
 	cc.wait(150 * time.Millisecond)
 	for _, id := range others[:k] {
 		if mode == 2 {
